@@ -30,8 +30,18 @@ def names():
     return _NAMES
 
 
-def build(node, H, salt: int, eolstr: str, strip_meta=False, late_meta=0, group=False):
-    """gamma: abstract node -> real object (None for a stripped metadata node)."""
+def build(node, H, salt: int, eolstr: str, strip_meta=False, late_meta=0, group=False, index=None):
+    """gamma: abstract node -> real object (None for a stripped metadata node).  index (optional): id -> real object;
+    a node whose id is already in it is the SAME object placed again (an abstract tree may repeat a subtree)."""
+    if index is not None and node["id"] in index:
+        return index[node["id"]]
+    obj = _build(node, H, salt, eolstr, strip_meta, late_meta, group, index)
+    if index is not None:
+        index[node["id"]] = obj
+    return obj
+
+
+def _build(node, H, salt, eolstr, strip_meta, late_meta, group, index):
     k, i = node["k"], node["id"]
     if k == "E":
         return "" if (i + salt) % 2 == 0 else H.HTML("")
@@ -59,7 +69,7 @@ def build(node, H, salt: int, eolstr: str, strip_meta=False, late_meta=0, group=
         if m == 3:
             return H.HTMLDependency(f"lazy{i}", "0.1", head=gamma.Tfy(lambda: H.tags.title("t")))
         return H.head_content(H.tags.title(str(i)))
-    kids = [build(c, H, salt, eolstr, strip_meta, late_meta, group) for c in node["c"]]
+    kids = [build(c, H, salt, eolstr, strip_meta, late_meta, group, index) for c in node["c"]]
     kids = [x for x in kids if x is not None] if strip_meta else kids
     if group and len(kids) >= 2 and (i + salt) % 2 == 0:
         # gamma option: a run of adjacent siblings arrives as ONE tagifiable object whose expansion is a TagList of
@@ -153,6 +163,47 @@ def scan(out: str, eolstr: str):
     if stack:
         toks.append(["junk", -2])
     return toks
+
+
+def apply_mutation(t, index, m, H, salt, eolstr, fresh_id):
+    """One public-API mutation applied to the abstract tree t (in place) and to the real objects (index: id -> object)."""
+    targets = [n for n in _walk(t) if n["k"] in "BIVWL"]
+    n = targets[m["target"] % len(targets)]
+    o = index[n["id"]]
+    kids_obj = o if n["k"] == "L" else o.children
+    op = m["op"]
+    leaf = lambda k_: {"k": k_, "id": fresh_id, "c": [], "tail": [], "pre": []}
+    if op == "pop_last" and n["c"]:
+        n["c"].pop()
+        kids_obj.pop()
+    elif op == "pop_first" and n["c"]:
+        n["c"].pop(0)
+        kids_obj.pop(0)
+    elif op == "clear":
+        n["c"].clear()
+        kids_obj.clear()
+    elif op in ("append_leaf", "insert_leaf0", "append_html"):
+        nd = leaf("H" if op == "append_html" else "T")
+        x = build(nd, H, salt, eolstr, index=index)
+        if op == "insert_leaf0":
+            n["c"].insert(0, nd)
+            o.insert(0, x)
+        else:
+            n["c"].append(nd)
+            o.append(x)
+    elif op in ("append_inline", "append_block"):
+        nd = {"k": "I" if op == "append_inline" else "B", "id": fresh_id, "c": [leaf("T") | {"id": fresh_id + 1}], "tail": [], "pre": []}
+        n["c"].append(nd)
+        o.append(build(nd, H, salt, eolstr, index=index))
+    elif op == "toggle_ws" and n["k"] != "L":
+        n["k"] = {"B": "I", "I": "B", "V": "W", "W": "V"}[n["k"]]
+        o.add_ws = not o.add_ws
+    elif op == "again" and n["c"] and n["k"] != "L":
+        # the same child object placed a second time, at the end of the same parent
+        c = n["c"][m["target"] % len(n["c"])]
+        if c["k"] in "IWTHE":
+            n["c"].append(c)
+            o.append(index[c["id"]])
 
 
 def render(obj, H, indent, eolstr, addws):
@@ -257,6 +308,16 @@ class _LayoutBase(Prop):
                 eol = rnd.choice(["\r\n", "\ue003", " | ", "\t"] + ([] if has_eol_tail else [""]))
             gens.append({"kind": "render", "tree": t, "indent": rnd.randint(0, 5), "eol": eol,
                          "addws": (rnd.random() < 0.8) if t["k"] == "L" else True, "salt": rnd.randrange(1000)})
+        # the same objects used again (render / mutate / render), incl. one child object placed twice in a parent
+        ops = ["pop_last", "pop_first", "clear", "append_leaf", "insert_leaf0", "append_html", "append_inline", "append_block",
+               "toggle_ws", "again", "again"]
+        for j in range(250 if tier == "quick" else 5000):
+            t = self.rand_tree(rnd, rnd.choice([4, 8, 15]), rnd.choice([2, 3, 5]))
+            if t["k"] in "TH":
+                continue
+            gens.append({"kind": "render", "tree": t, "indent": rnd.choice([0, 1, 3]), "eol": rnd.choice(["\n", "\n", "\r\n", ""]),
+                         "addws": True, "salt": rnd.randrange(1000) * 8,
+                         "mut": [{"op": rnd.choice(ops), "target": rnd.randrange(50)} for _ in range(rnd.randint(1, 3))]})
         # the caller's own <body> (block or inline) as the sole content of an HTMLDocument
         for j in range(40 if tier == "quick" else 800):
             t = self.rand_tree(rnd, rnd.choice([6, 15]), rnd.choice([3, 5]))
@@ -295,6 +356,23 @@ class _LayoutBase(Prop):
             sys.displayhook = saved_hook
         if group:
             obj, obj0 = obj.tagify(), obj0.tagify()
+        if g.get("mut"):
+            # the same objects used again: render, change something through the public API, render again - what is
+            # judged is the LAST rendering, against the tree as it is then (and against a fresh tree without metadata)
+            import copy as _copy
+            t = _copy.deepcopy(t)
+            index = {}
+            obj = build(t, H, salt, eol, index=index)
+            fresh = max(n["id"] for n in _walk(t)) + 1
+            for m in g["mut"]:
+                render(obj, H, g["indent"], eol, g["addws"])
+                str(obj)
+                apply_mutation(t, index, m, H, salt, eol, fresh)
+                fresh += 2
+            out = render(obj, H, g["indent"], eol, g["addws"])
+            out0 = render(build(t, H, salt, eol, strip_meta=True, index={}), H, g["indent"], eol, g["addws"])
+            return {"k": "render", "tree": norm_tree(t), "indent": g["indent"], "eol": eol != "", "addws": g["addws"],
+                    "toks": scan(out, eol), "toks0": scan(out0, eol), "strSame": True, "gen": g}
         if g.get("how") == "docbody":
             # the tree is the caller's own <body>, sole content of an HTMLDocument: its markup sits at indent 1
             def body_of(o):
